@@ -16,7 +16,8 @@ import CelmaVerif.Lemmas.ConcurrencyHB
    3. the link to the handler.  `C09_plain_handler_threads_isolated`: the thread program is
       *derived* from what the thread calls on its handler (`Api`, `threadProg`); its process-wide
       cells are the regenerated inventory, which call reaches them is read from the regenerated
-      call-site table (`C09_singleton_callers_modelled`); the footprint condition is PROVED for
+      call-site table with its guards (`C09_singleton_callers_modelled`: the guard in front of
+      `Groups::instance()` is `mUsedByGroup` where the model says so); the footprint condition is PROVED for
       plain handler threads (decidable condition `Plain` on the call list) and proved to FAIL for
       a thread that asks for the usage / the group list / standard arguments
       (`C09_plain_is_the_boundary`, `C09_usage_threads_conflict`).
@@ -135,23 +136,54 @@ theorem C09_inventory_all_justified :
 
 /-- The regenerated call-site table of the tree under check (every function of the handler's
 reach that calls a member function of `common::Singleton<T>`, the only code that can name the
-singleton's private static members; with the fact whether all such calls sit in a branch of an
-`if`) contains only callers the thread model knows, with the same guardedness.  A new call site
-— e.g. `Groups::instance()` in `Handler::evalArguments` — or a dropped `if (mUsedByGroup)` makes
-this fail. -/
+singleton's private static members; per call site the conjunction of the conditions of the
+enclosing `if` statements, `!(c)` for an else-branch, as normalised source text) is covered by the
+thread model's reading `modelledCallers`: the same callers, each with the same guards —
+`Handler::internAddArgument`, `Handler::addBracketHandler` and (since /repo b870f06) the sub-group
+overload of `Handler::addArgument` reach `Groups::instance()` only under `if (mUsedByGroup)` (the flag set from `hfInGroup`, false for every handler not created by
+`Groups`), `Handler::usage` once inside the condition of its first `if` and once under it, the
+other three unconditionally.  A new call site — e.g. `Groups::instance()` in
+`Handler::evalArguments` —, a dropped `if (mUsedByGroup)` or a guard that tests **another
+expression** (`if (!mIsSubGroupHandler)`, `if (true)`) makes this fail; the four `have`s only
+serve to name the call site in the error message. -/
 theorem C09_singleton_callers_modelled : callersModelled = true := by
-  decide
+  have : foundGuards "library/prog_args/handler.cpp" "Handler::internAddArgument" = [["mUsedByGroup"]] := by
+    first
+      | decide
+      | fail "call site Handler::internAddArgument (library/prog_args/handler.cpp): Groups::instance() is not guarded by exactly `if (mUsedByGroup)` (see singleton_callers in the translator report)"
+  have : foundGuards "library/prog_args/handler.cpp" "Handler::addBracketHandler" = [["mUsedByGroup"]] := by
+    first
+      | decide
+      | fail "call site Handler::addBracketHandler (library/prog_args/handler.cpp): Groups::instance() is not guarded by exactly `if (mUsedByGroup)` (see singleton_callers in the translator report)"
+  have : foundGuards "library/prog_args/handler.cpp" "Handler::addArgument" = [["mUsedByGroup"]] := by
+    first
+      | decide
+      | fail "call site Handler::addArgument (sub-group overload, library/prog_args/handler.cpp): Groups::instance() is not guarded by exactly `if (mUsedByGroup)` (see singleton_callers in the translator report)"
+  have : foundGuards "library/prog_args/handler.cpp" "Handler::usage" =
+      [[], ["Groups::instance().evaluatedByArgGroups()&&!mIsSubGroupHandler"]] := by
+    first
+      | decide
+      | fail "call sites of Handler::usage (library/prog_args/handler.cpp): not `if (Groups::instance().evaluatedByArgGroups() && !mIsSubGroupHandler) Groups::instance().displayUsage(..)` (see singleton_callers in the translator report)"
+  first
+    | decide
+    | fail "the call-site table of Singleton<T> members has a caller the thread model does not know, or one with other guards (see singleton_callers in the translator report)"
 
 /-- **Isolation of plain handler threads, footprint condition proved, not assumed.**  Every
 thread is given by the list of calls it makes on its own handler (`Api`: construct with/without
-`hfInGroup`, bound to the standard streams or not; add a list argument; add a bracket handler;
-evaluate a use; usage; list of groups; standard arguments; argument string without handler);
+`hfInGroup`, bound to the standard streams or not; add a list argument; add a sub-group argument;
+add a bracket handler; evaluate a use; usage; list of groups; standard arguments; argument string without handler);
 its program `threadProg` is derived from that list, the process-wide cells being the regenerated
-inventory.  If every thread is plain — no `hfInGroup`, none of the four calls that enter the group
-singleton unconditionally (`Plain`, decidable) — then for every schedule that runs all threads to
-completion every thread has observed what it observes alone and its destination variables hold
-what they hold after the run alone, and no schedule at all contains a conflicting pair of
-accesses. -/
+inventory, and a call touches the singleton's cells when one of its call sites **in the
+regenerated call-site table** has a guard that may hold under the handler's `mUsedByGroup`.
+If every thread is plain — constructed without `hfInGroup`, i.e. `mUsedByGroup = false`, and none
+of the four calls that enter the group singleton unconditionally (`Plain`, decidable) — then for
+every schedule that runs all threads to completion every thread has observed what it observes
+alone and its destination variables hold what they hold after the run alone, and no schedule at
+all contains a conflicting pair of accesses.  The proof uses `C09_singleton_callers_modelled`:
+the calls a plain thread makes (`internAddArgument`, `addBracketHandler`, `addArgument` for a
+sub-group) reach
+`Groups::instance()` only under `mUsedByGroup`, which is false for it; with another guard in the
+tree this theorem has no proof. -/
 theorem C09_plain_handler_threads_isolated (threads : List (List Api))
     (hplain : ∀ th ∈ threads, Plain th = true)
     (σ0 : Store HCell HVal) (sched : List (Fin threads.length)) :
@@ -163,20 +195,31 @@ theorem C09_plain_handler_threads_isolated (threads : List (List Api))
       ¬ a.Conflict b) := by
   intro progs
   have hl : ∀ i, (progs i).Local (handlerOwner threads.length) i :=
-    fun i => threadProg_local i (threads[i]) (hplain _ (List.getElem_mem _))
+    fun i => threadProg_local C09_singleton_callers_modelled i (threads[i]) (hplain _ (List.getElem_mem _))
   refine ⟨fun hdone i => ?_, C09_race_free _ (handlerOwner _) progs σ0 sched hl⟩
   have h := C09_noninterference _ (handlerOwner _) progs σ0 sched hl hdone i
   exact ⟨h.1, fun k => h.2 _ (Or.inl (handlerOwner_dest i k))⟩
 
+/-- The dependency of the previous theorem, stated on its own: on a handler with
+`mUsedByGroup = false` none of the calls a plain thread makes reaches a member of
+`Singleton<Groups>` in the tree under check — *because* its call-site table is the modelled one.
+With `mUsedByGroup = true` (a handler created by `Groups`) the same two calls do. -/
+theorem C09_plain_calls_guarded_by_mUsedByGroup :
+    (∀ a : Api, a.plain = true → a.touchesSingleton false = false) ∧
+    (Api.addListArg 0).touchesSingleton true = true ∧ Api.addBracketHandler.touchesSingleton true = true ∧
+    Api.addSubGroupArg.touchesSingleton true = true :=
+  ⟨plain_not_touches C09_singleton_callers_modelled, by decide, by decide, by decide⟩
+
 /-- `Plain` is the exact boundary inside the family of derived thread programs, not a
 restatement of the footprint condition: a thread with one call that enters the group singleton
-whatever the handler's flags (`usage`, `listArgGroups`, `addStandardArgument`,
-`evalArgumentString`) has every singleton member of the inventory in its write footprint and does
-NOT satisfy the footprint condition; plain threads do (previous theorem). -/
+whatever the handler's flag `mUsedByGroup` (`usage`, `listArgGroups`, `addStandardArgument`,
+`evalArgumentString`: a call site outside every `if`) has every singleton member of the inventory
+in its write footprint and does NOT satisfy the footprint condition; plain threads do. -/
 theorem C09_plain_is_the_boundary {n : Nat} (i : Fin n) (calls : List Api) :
     (Plain calls = true → (threadProg i.val calls).Local (handlerOwner n) i) ∧
-    (∀ a ∈ calls, a.touchesSingleton false = true → ¬ (threadProg i.val calls).Local (handlerOwner n) i) :=
-  ⟨threadProg_local i calls, fun a ha hu => threadProg_not_local i calls a ha hu (by decide)⟩
+    (∀ a ∈ calls, (∀ g, a.touchesSingleton g = true) → ¬ (threadProg i.val calls).Local (handlerOwner n) i) :=
+  ⟨threadProg_local C09_singleton_callers_modelled i calls,
+   fun a ha hu => threadProg_not_local i calls a ha hu (by decide)⟩
 
 /-- … and the conclusion fails with it: two threads that each construct a plain handler and ask
 for the usage both write the members of `Singleton<Groups>` (first use constructs the object);
@@ -292,7 +335,7 @@ example : (∀ i, ClosedWorld i (fixedProgs i)) ∧ ∀ j : Justification, j.Hol
 a bracket handler, uses of both arguments) -/
 def plainThreads : List (List Api) :=
   [ [.construct false true, .addListArg 0, .addListArg 1, .evalUse 0 0, .evalUse 1 1],
-    [.construct false false, .addListArg 0, .addBracketHandler, .evalUse 0 0] ]
+    [.construct false false, .addListArg 0, .addSubGroupArg, .addBracketHandler, .evalUse 0 0] ]
 
 /-- the hypothesis of `C09_plain_handler_threads_isolated` holds for them, a schedule that
 interleaves them runs both to completion, and the conclusion is the expected split of each
@@ -302,7 +345,7 @@ example : (∀ th ∈ plainThreads, Plain th = true) := by decide
 example :
     let progs : Fin 2 → Prog HCell HVal := fun i => threadProg i.val (plainThreads[i])
     let σ0 := initStore [⟨[';', ','], [(0, "a,b;c".toList), (1, "x,y".toList)]⟩, ⟨[','], [(0, "a,b;c".toList)]⟩]
-    let sched : List (Fin 2) := [0, 1, 0, 1, 0, 1, 0, 1, 0, 1, 0, 0, 0, 0, 0, 0]
+    let sched : List (Fin 2) := [0, 1, 0, 1, 0, 1, 0, 1, 0, 1, 0, 1, 0, 0, 0, 0, 0]
     (∀ i, ((Cfg.init progs σ0).run sched).rem i = .done) ∧
     ((Cfg.init progs σ0).run sched).store (.dest 0 0) = ["a,b".toList, "c".toList] ∧
     ((Cfg.init progs σ0).run sched).store (.dest 0 1) = ["x".toList, "y".toList] ∧
@@ -313,8 +356,10 @@ example :
   | 0 => exact done_of_isDone _ (by decide)
   | 1 => exact done_of_isDone _ (by decide)
 
-/-- a thread that is not plain: the usage is requested -/
-example : Plain [.construct false true, .addListArg 0, .usage] = false := by decide
+/-- a thread that is not plain: the usage is requested; that call reaches the singleton whatever
+the handler's flag (hypothesis of the second half of `C09_plain_is_the_boundary`) -/
+example : Plain [.construct false true, .addListArg 0, .usage] = false ∧
+    ∀ g, Api.usage.touchesSingleton g = true := by decide
 
 /-- a handler of a group (`hfInGroup`) is not plain either, and its `addArgument` reaches the
 singleton (`if (mUsedByGroup) Groups::instance().crossCheckArguments( this)`) -/
